@@ -216,7 +216,7 @@ def r09_2(ctx):
         ctx.check(f"{q} folds constant expressions only", not kept, "None (not folded) when an operand is not a literal", "; ".join(kept[:3]) or "never folds", fn_where(idx, fi))
     operands = O.FOLD_OPERANDS if ctx.env.tier == "thorough" else O.FOLD_OPERANDS_QUICK
     ctx.need(len(operands) >= 8, "oracle operand table too small")
-    for op in ("+", "-", "*", "/"):
+    for op in ("+", "-", "*", "/", "%"):
         bad = []
         n = 0
         for a, ta in operands:
@@ -224,6 +224,8 @@ def r09_2(ctx):
                 exp = O.c_fold(op, a, ta, b, tb)
                 fi, got = folded("simplify_arithmetic_expr", "ARITH_OP", op, a, ta, b, tb)
                 n += 1
+                if op == "%" and got == {("reject",)}:
+                    continue  # not folding a remainder at all is fine (today's behaviour); folding it must give C's remainder
                 if got != {exp}:
                     bad.append(f"{a}:{tname(ta)} {op} {b}:{tname(tb)} -> {sorted(map(str, got))}, C11: {exp}")
         ctx.check(f"fold binary {op}: value and type over {n} operand pairs", not bad, "C11 value reduced to the common type of the promoted operands (inexact or zero division rejected)",
@@ -508,3 +510,20 @@ def r09_10(ctx):
     from .c02 import r02_8
 
     r02_8(ctx)
+    # two literal operands: with the folders switched off, every binary expression callback builds its operator node - a callback that
+    # hands back a literal has evaluated the expression itself (outside the folders the fold oracle checks)
+    idx = get_index(ctx.env)
+    specs = [("additive_expr", "ARITH_OP", ("+", "-")), ("multiplicative_expr", "ARITH_OP", ("*", "/", "%")), ("shift_expr", "SHIFT_OP", ("<<", ">>")),
+             ("and_expr", "AND_OP", ("&",)), ("exclusive_or_expr", "XOR_OP", ("^",)), ("inclusive_or_expr", "OR_OP", ("|",)),
+             ("logical_and_expr", "LAND", ("&&",)), ("logical_or_expr", "LOR", ("||",))]
+    for cb, tok, ops in specs:
+        if not idx.has_func(f"RZILTransformer.{cb}"):
+            continue
+        for op in ops:
+            for (va, ta), (vb, tb) in (((1, (True, 32)), (4, (True, 32))), ((-16, (True, 32)), (2, (False, 32))), ((7, (True, 32)), (2, (True, 64)))):
+                r = Runner(idx)
+                r.fold = False
+                fi, outs = r.run(cb, lambda: [number(r, "a", va, ta[0], ta[1]), Tok(tok, op), number(r, "b", vb, tb[0], tb[1])])
+                got = sorted({"RAISE" if o.kind == "raise" else (o.value.cls if isinstance(o.value, AObj) else type(o.value).__name__) for o in outs})
+                lits = [g for g in got if g in ("Number", "Bool", "LetVar", "Sizeof")]
+                ctx.check(f"{cb}[{va} {op} {vb}] with the folders off builds an operator node", not lits, "ArithmeticOp / BitOp / BooleanOp (or a rejection)", str(got), fn_where(idx, fi), nontrivial=False)
